@@ -16,6 +16,10 @@ Driver handlers for C15.
   covering branch, `U` = the centroids walked are not sorted by mean)
   answer (`q`): `Q F…`
 
+`TDIGESTW <δ> <aq|raw|med> <full|q> <tree> <values> <weights> <qs> <cdfs>`: the same with one weight per value;
+  an extra leaf kind `W<n>` = `TDigest::new(δ)` + `add_weighted(value, weight)` of the next `n` (value, weight) pairs
+  (`L` / `B` leaves consume their weights without using them: `add_input` has weight 1)
+
 `KMV <k> <new|raw> <full|est> <tree> <ranks>`  (`new` = k goes through `KMVApproxDistinctCount::new`)
   answer (`full`): `<F…|PANIC> M<|set|> H<|heap|> K<k> | H F… | S F…` (sorted ascending); (`est`): `<F…|PANIC>`
 -/
@@ -41,7 +45,7 @@ def otok (d : Float) : Option Float → String
 
 
 inductive Shape where
-  | leaf (n : Nat) | built (n : Nat) | node (l r : Shape)
+  | leaf (n : Nat) | built (n : Nat) | wleaf (n : Nat) | node (l r : Shape)
 
 /-- parse a preorder shape; fuel = number of tokens -/
 def shape? : Nat → List String → Option (Shape × List String)
@@ -54,6 +58,7 @@ def shape? : Nat → List String → Option (Shape × List String)
       pure (.node l r, ts)
     else if t.startsWith "L" then (parseNat? (t.drop 1).toString).map (fun n => (.leaf n, ts))
     else if t.startsWith "B" then (parseNat? (t.drop 1).toString).map (fun n => (.built n, ts))
+    else if t.startsWith "W" then (parseNat? (t.drop 1).toString).map (fun n => (.wleaf n, ts))
     else none
 
 def parseShape? (s : String) : Option Shape :=
@@ -62,10 +67,11 @@ def parseShape? (s : String) : Option Shape :=
   | some (sh, []) => some sh
   | _ => none
 
-/-- distribute the values over the leaves, left to right -/
-def fillM {β : Type} : Shape → List β → Option (MTree β × List β)
-  | .leaf n, xs => if xs.length < n then none else some (.leaf (xs.take n), xs.drop n)
-  | .built n, xs => if xs.length < n then none else some (.built (xs.take n), xs.drop n)
+/-- distribute the (value, weight) pairs over the leaves, left to right; only `W` leaves use the weights -/
+def fillM {β : Type} : Shape → List (β × β) → Option (MTree β × List (β × β))
+  | .leaf n, xs => if xs.length < n then none else some (.leaf ((xs.take n).map Prod.fst), xs.drop n)
+  | .built n, xs => if xs.length < n then none else some (.built ((xs.take n).map Prod.fst), xs.drop n)
+  | .wleaf n, xs => if xs.length < n then none else some (.wleaf (xs.take n), xs.drop n)
   | .node l r, xs => do
       let (a, xs) ← fillM l xs
       let (b, xs) ← fillM r xs
@@ -73,7 +79,8 @@ def fillM {β : Type} : Shape → List β → Option (MTree β × List β)
 
 def fillK {β : Type} : Shape → List β → Option (KTree β × List β)
   | .leaf n, xs => if xs.length < n then none else some (.leaf (xs.take n), xs.drop n)
-  | .built n, xs => if xs.length < n then none else some (.leaf (xs.take n), xs.drop n)
+  | .built n, xs => if xs.length < n then none else some (.built (xs.take n), xs.drop n)
+  | .wleaf _, _ => none
   | .node l r, xs => do
       let (a, xs) ← fillK l xs
       let (b, xs) ← fillK r xs
@@ -102,37 +109,54 @@ def inversions (qs : List Float) (es : List (Option Float)) : List Nat :=
 
 def joinToks (ts : List String) : String := " ".intercalate ts
 
+/-- `weighted = false`: every weight is 1 and `W` leaves are malformed -/
+def hasW : Shape → Bool
+  | .wleaf _ => true
+  | .node l r => hasW l || hasW r
+  | _ => false
+
+def tdigestAnswer (δ : Float) (fin out : String) (sh : Shape) (pts : List (Float × Float)) (qs cdfs : List Float) : String :=
+  match fillM sh pts with
+  | some (t, []) =>
+    let d : TDigest Float := t.eval δ
+    let est? : Option (List (Option Float)) :=
+      if fin == "aq" then some (approxQuantilesFinish qs d)
+      else if fin == "raw" then some (d.quantiles qs)
+      else if fin == "med" then some [approxMedianFinish d]
+      else none
+    match est? with
+    | none => "BAD-OP"
+    | some es =>
+      let qpart := joinToks ("Q" :: es.map (otok nan))
+      if out == "q" then qpart
+      else if out == "full" then
+        let spart := joinToks ["S", toString d.centroids.length, ftok d.total, otok inf d.min, otok (-inf) d.max]
+        let cpart := joinToks ("C" :: d.centroids.flatMap (fun c => [ftok c.mean, ftok c.weight]))
+        let dpart := joinToks ("D" :: cdfs.map (fun v => ftok (d.cdf v)))
+        -- the grid the estimates belong to, and the digest `quantile` ran on (`finish` compresses once more)
+        let qsEff := if fin == "med" then [0.5] else qs
+        let dq := if fin == "raw" then d else d.compress
+        let inv := inversions qsEff es
+        let ipart := joinToks ("INV" :: (if inv.isEmpty then ["-"] else
+          inv.map (fun i => invKind dq (nth qsEff i) (nth qsEff (i + 1)) ++ toString i)))
+        qpart ++ " | " ++ spart ++ " | " ++ cpart ++ " | " ++ dpart ++ " | " ++ ipart
+      else "BAD-OP"
+  | _ => "BAD-OP"
+
 def handleTDigest : List String → String
   | [δ, fin, out, tree, vals, qs, cdfs] =>
     match float? δ, parseShape? tree, floats? vals, floats? qs, floats? cdfs with
     | some δ, some sh, some vals, some qs, some cdfs =>
-      match fillM sh vals with
-      | some (t, []) =>
-        let d : TDigest Float := t.eval δ
-        let est? : Option (List (Option Float)) :=
-          if fin == "aq" then some (approxQuantilesFinish qs d)
-          else if fin == "raw" then some (d.quantiles qs)
-          else if fin == "med" then some [approxMedianFinish d]
-          else none
-        match est? with
-        | none => "BAD-OP"
-        | some es =>
-          let qpart := joinToks ("Q" :: es.map (otok nan))
-          if out == "q" then qpart
-          else if out == "full" then
-            let spart := joinToks ["S", toString d.centroids.length, ftok d.total, otok inf d.min, otok (-inf) d.max]
-            let cpart := joinToks ("C" :: d.centroids.flatMap (fun c => [ftok c.mean, ftok c.weight]))
-            let dpart := joinToks ("D" :: cdfs.map (fun v => ftok (d.cdf v)))
-            -- the grid the estimates belong to, and the digest `quantile` ran on (`finish` compresses once more)
-            let qsEff := if fin == "med" then [0.5] else qs
-            let dq := if fin == "raw" then d else d.compress
-            let inv := inversions qsEff es
-            let ipart := joinToks ("INV" :: (if inv.isEmpty then ["-"] else
-              inv.map (fun i => invKind dq (nth qsEff i) (nth qsEff (i + 1)) ++ toString i)))
-            qpart ++ " | " ++ spart ++ " | " ++ cpart ++ " | " ++ dpart ++ " | " ++ ipart
-          else "BAD-OP"
-      | _ => "BAD-OP"
+      if hasW sh then "BAD-OP" else tdigestAnswer δ fin out sh (vals.map (fun v => (v, 1.0))) qs cdfs
     | _, _, _, _, _ => "BAD-OP"
+  | _ => "BAD-OP"
+
+def handleTDigestW : List String → String
+  | [δ, fin, out, tree, vals, wts, qs, cdfs] =>
+    match float? δ, parseShape? tree, floats? vals, floats? wts, floats? qs, floats? cdfs with
+    | some δ, some sh, some vals, some wts, some qs, some cdfs =>
+      if vals.length != wts.length then "BAD-OP" else tdigestAnswer δ fin out sh (vals.zip wts) qs cdfs
+    | _, _, _, _, _, _ => "BAD-OP"
   | _ => "BAD-OP"
 
 def sortF (xs : List Float) : List Float := xs.mergeSort (fun a b => decide (a ≤ b))
@@ -165,6 +189,6 @@ def handleKMV : List String → String
   | _ => "BAD-OP"
 
 def handlers : List (String × (List String → String)) :=
-  [("TDIGEST", handleTDigest), ("KMV", handleKMV)]
+  [("TDIGEST", handleTDigest), ("TDIGESTW", handleTDigestW), ("KMV", handleKMV)]
 
 end IB.D15
